@@ -137,6 +137,29 @@ fn read_xchildren<X: XmlFragment, R: ReadTxn>(x: &X, txn: &R, bytes: bool, issue
     // get(i), first_child, siblings
     for i in 0..len + 1 { if x.get(txn, i as u32).is_some() != (i < kids.len()) { issues.push(format!("{name}: get({i}) presence disagrees with children()")); } }
     if x.first_child().is_some() != !kids.is_empty() { issues.push(format!("{name}: first_child presence disagrees with children()")); }
+    // siblings (forward from every child, backward from every child), parent, successors (depth first) against children()
+    let bid = |n: &XmlOut| -> String { match n { XmlOut::Element(e) => format!("{:?}", AsRef::<yrs::branch::Branch>::as_ref(e).id()), XmlOut::Fragment(f) => format!("{:?}", AsRef::<yrs::branch::Branch>::as_ref(f).id()), XmlOut::Text(t) => format!("{:?}", AsRef::<yrs::branch::Branch>::as_ref(t).id()) } };
+    let ids: Vec<String> = kids.iter().map(|k| bid(k)).collect();
+    if let Some(f) = x.first_child() { if Some(&bid(&f)) != ids.first() { issues.push(format!("{name}: first_child is not the first of children()")); } }
+    for (i, k) in kids.iter().enumerate() {
+        let (fwd, bwd): (Vec<String>, Vec<String>) = match k {
+            XmlOut::Element(e) => (e.siblings(txn).map(|n| bid(&n)).collect(), e.siblings(txn).rev().map(|n| bid(&n)).collect()),
+            XmlOut::Text(t) => (t.siblings(txn).map(|n| bid(&n)).collect(), t.siblings(txn).rev().map(|n| bid(&n)).collect()),
+            XmlOut::Fragment(_) => continue,
+        };
+        if fwd[..] != ids[i + 1..] { issues.push(format!("{name}<{i}>: siblings() yields {:?} but children() continues with {:?}", fwd, &ids[i + 1..])); }
+        let want_b: Vec<String> = ids[..i].iter().rev().cloned().collect();
+        if bwd != want_b { issues.push(format!("{name}<{i}>: siblings().rev() yields {:?} but children() before it are {:?}", bwd, want_b)); }
+        let par = match k { XmlOut::Element(e) => e.parent().map(|p| bid(&p)), XmlOut::Text(t) => t.parent().map(|p| bid(&p)), _ => None };
+        let me = format!("{:?}", AsRef::<yrs::branch::Branch>::as_ref(x).id());
+        if par.as_deref() != Some(me.as_str()) { issues.push(format!("{name}<{i}>: parent() = {:?} but it is a child of {}", par, me)); }
+    }
+    fn preorder<R: ReadTxn>(kids: &[XmlOut], txn: &R, out: &mut Vec<String>, bid: &dyn Fn(&XmlOut) -> String) {
+        for k in kids { out.push(bid(k)); if let XmlOut::Element(e) = k { let sub: Vec<XmlOut> = e.children(txn).collect(); preorder(&sub, txn, out, bid); } }
+    }
+    let mut want = vec![]; preorder(&kids, txn, &mut want, &bid);
+    let got: Vec<String> = x.successors(txn).map(|n| bid(&n)).collect();
+    if got != want { issues.push(format!("{name}: successors() yields {:?} but the tree read through children() is {:?}", got, want)); }
     kids.into_iter().enumerate().map(|(i, k)| read_out(&xml_out_to_out(k), txn, bytes, issues, &format!("{name}<{i}>"))).collect()
 }
 fn read_xelem<R: ReadTxn>(e: &XmlElementRef, txn: &R, bytes: bool, issues: &mut Vec<String>, name: &str) -> RVal {
@@ -256,6 +279,6 @@ pub fn run(prop: &str, tier: &str, seed: u64, workers: usize) -> Report {
         }
         rep
     });
-    total.notes.push("single-replica programs of 10..60 transactions x 1..4 calls (text insert / push / remove_range [/ insert_with_attributes / format / insert_embed in the rich stream], array insert / insert_range / push_back / push_front / remove / remove_range / nested map+text prelims edited through fresh references, map insert / remove / try_update / clear / nested array / get_or_init, XML children and attributes), random offset kind (UTF-16 / bytes, positions on character boundaries of a multi-byte alphabet incl. astral characters) and gc on/off; after every transaction all roots are read back through every accessor (len, iter, get(i) incl. out of range, to_json, keys/values/contains_key/get, diff / get_string, XML children / get / first_child / attributes) and compared with plain reference structures and with each other".into());
+    total.notes.push("single-replica programs of 10..60 transactions x 1..4 calls (text insert / push / remove_range [/ insert_with_attributes / format / insert_embed in the rich stream], array insert / insert_range / push_back / push_front / remove / remove_range / nested map+text prelims edited through fresh references, map insert / remove / try_update / clear / nested array / get_or_init, XML children and attributes), random offset kind (UTF-16 / bytes, positions on character boundaries of a multi-byte alphabet incl. astral characters) and gc on/off; after every transaction all roots are read back through every accessor (len, iter, get(i) incl. out of range, to_json, keys/values/contains_key/get, diff / get_string, XML children / get / first_child / siblings forward and backward / parent / successors / attributes) and compared with plain reference structures and with each other".into());
     total
 }
